@@ -437,7 +437,7 @@ static void rd_img_df24(const char *fn, int ril)
         if (DF24getdims(fn, &x, &y, &il) == FAIL) break;
         long           nb  = (long)x * y * 3;
         unsigned char *buf = malloc(nb > 0 ? nb : 1);
-        int            r0  = DF24reqil(ril);
+        int            r0  = ril >= 0 ? DF24reqil(ril) : 0;
         int            r   = DF24getimage(fn, buf, x, y);
         printf("%s df24 %d %d %d %d", ID, k, (int)x, (int)y, il);
         if (r == FAIL || r0 == FAIL) printf(" fail\n"); else { phex(buf, nb); printf("\n"); }
@@ -463,7 +463,7 @@ static void rd_img_gr(const char *fn, const char *view, int ril)
         }
         long           nb  = (long)dims[0] * dims[1] * ncomp * ntsize(nt);
         unsigned char *buf = malloc(nb > 0 ? nb : 1);
-        int            r0  = GRreqimageil(ri, ril);
+        int            r0  = ril >= 0 ? GRreqimageil(ri, ril) : 0;   /* ril < 0: the image's own interlace */
         int            r   = GRreadimage(ri, start, NULL, dims, buf);
         printf("%s %s %d %d %d %d %d %d", ID, view, k, (int)dims[0], (int)dims[1], (int)ncomp, (int)nt, (int)il);
         if (r == FAIL || r0 == FAIL) printf(" fail"); else phex(buf, nb);
@@ -475,7 +475,7 @@ static void rd_img_gr(const char *fn, const char *view, int ril)
             long           pb = (long)lc * lne * ntsize(lnt);
             unsigned char *pl = malloc(pb > 0 ? pb : 1);
             if (GRreadlut(lut, pl) == FAIL) printf(" lutfail");
-            else { printf(" lut %d %d %d %d", (int)lc, (int)lnt, (int)lil, (int)lne); phex(pl, pb); }
+            else { printf(" lut %d %d %d %d", (int)lc, (int)ntsize(lnt), (int)lil, (int)lne);   /* bytes per component */ phex(pl, pb); }
             free(pl);
         }
         else printf(" nolut");
@@ -812,7 +812,7 @@ static void run_case(const char *dir)
         snprintf(FN, sizeof FN, "%s/c-%s.hdf", dir, ID);
         if (copy_file(path, FN) < 0) { printf("%s legacy nofile\n", ID); return; }
         sds_readers(FN, "dsnv", dir);
-        img_readers(FN, "82GpV", dir, 0);
+        img_readers(FN, "82GpV", dir, -1);
         dump_recs(FN);
     }
     else printf("%s badkind\n", ID);
